@@ -471,7 +471,7 @@ func (e *Engine) prelude() string {
 		b.WriteString("(declare-fun elemptr (Int Int) Int)\n(assert (forall ((b Int) (i Int)) (! (< 4611686018427387904 (elemptr b i)) :pattern ((elemptr b i)))))\n")
 	}
 	if e.needProto {
-		b.WriteString("(declare-fun fdIsList (Int) Bool)\n(declare-fun fdIsMap (Int) Bool)\n(declare-fun fdMsg (Int) Int)\n(declare-fun valkind (Int Int Int) Int)\n")
+		b.WriteString("(declare-fun fdIsList (Int) Bool)\n(declare-fun fdIsMap (Int) Bool)\n(declare-fun fdMsg (Int) Int)\n(declare-fun valkind (Int Int Int) Int)\n(declare-fun fdOwner (Int) Int)\n")
 		b.WriteString("(assert (forall ((f Int)) (! (and (>= (fdMsg f) 0) (not (and (fdIsList f) (fdIsMap f))) (=> (fdIsMap f) (not (= (fdMsg f) 0)))) :pattern ((fdMsg f)))))\n")
 	}
 	if e.needMapHas {
@@ -634,4 +634,31 @@ func (e *Engine) checkImmutables() error {
 		}
 	}
 	return nil
+}
+
+
+// detApp applies the uninterpreted functions standing for a deterministic library call.
+func (e *Engine) detApp(d *DetFunc, leaves, sorts []string) []string {
+	var rs []string
+	switch d.Kind {
+	case "string":
+		rs = []string{sAI, sInt, sInt}
+	case "iface":
+		rs = []string{sInt, sInt}
+	case "bool":
+		rs = []string{sBool}
+	case "int":
+		rs = []string{sInt}
+	}
+	var out []string
+	for i, r := range rs {
+		fn := fmt.Sprintf("det$%s$%d", d.Name, i)
+		decl := fmt.Sprintf("(declare-fun %s (%s) %s)", fn, strings.Join(sorts, " "), r)
+		if old, ok := e.ufDecls[fn]; ok && old != decl {
+			panic(specErr{fmt.Sprintf("det %s applied to arguments of different shapes", d.Name)})
+		}
+		e.ufDecls[fn] = decl
+		out = append(out, app(fn, leaves...))
+	}
+	return out
 }
